@@ -398,7 +398,7 @@ NeverBlocked == ~Blocked /\ dsp # "dead"
 State == [bat |-> bat, jobs |-> jobs, work |-> work, cq |-> cq, wk |-> wk, rank |-> rank,
           ws |-> ws, verd |-> verd, ans |-> ans, dsp |-> dsp, cnt |-> cnt,
           abs |-> [opts |-> abs.opts, fails |-> abs.fails, cancel |-> abs.cancel,
-                   hardx |-> abs.hardx, latest |-> abs.latest, live |-> abs.live,
+                   hardx |-> abs.hardx, win |-> abs.win, latest |-> abs.latest, live |-> abs.live,
                    hold |-> abs.hold, stopped |-> abs.stopped]]
 View == <<bat, jobs, work, cq, wk, rank, ws, verd, ans, dsp, cnt, abs>>
 =============================================================================
